@@ -1,12 +1,94 @@
-(* Props_C14.v — property C14: ONLY theorem statements, each closed by [exact] of a lemma
-   from C14_Proofs*, followed by Print Assumptions. *)
-From Verif Require Import Base C14_Model C14_Proofs.
+(* Props_C14.v — property C14 (the prepared-statement cache is transparent, leak-free, safe in
+   any interleaving): ONLY theorem statements, each closed by [exact] of a lemma from
+   C14_Proofs*, followed by Print Assumptions.
 
-(* "every statement the cache prepared is eventually closed": REFUTED on the code as it is.
-   Witness W1 (ErrBadConn after a Reset), W2 (failed Prepare after a Reset), W4 (failed Tx-level
-   Prepare after an upgrade, no Reset at all): all goroutines are done, the cache is closed,
-   one pool-level statement was prepared and is never closed.  Each schedule is replayed on the
-   real gorm by corpus/C14 (KNOWN-FINDING stale-delete). *)
+   The model (C14_Model.v): goroutines with program counters over the atomic actions of
+   prepare_stmt.go; [step s t c] = goroutine t performs its next action, the driver answering c;
+   [run s sched] follows ANY list of (goroutine, driver answer): all theorems quantify over every
+   program list (any number of goroutines and operations) and every schedule.
+   [reach progs s] := exists sched, run (init progs) sched = Some s. *)
+From Verif Require Import Base C14_Model C14_Check C14_Proofs C14_Proofs2 C14_Proofs3 C14_Proofs4
+  C14_Proofs5 C14_Proofs6 C14_Proofs7 C14_Proofs8 C14_Proofs9.
+
+(* ---- 1. no goroutine deadlocks ---------------------------------------------------------- *)
+(* In every reachable state in which some goroutine has not finished, some goroutine can take
+   a step, provided the driver answers its calls (the step may be the return of a driver call
+   with an answer of the environment's choosing).  Rests on: Mux is held only across
+   non-blocking sections; every open [prepared] channel has a live owner that will close it. *)
+Theorem c14_no_deadlock : forall progs s,
+  reach progs s -> all_done s = false -> exists t c, step s t c <> None.
+Proof. exact no_deadlock. Qed.
+Print Assumptions c14_no_deadlock.
+
+Theorem c14_mutual_exclusion : forall progs s t1 t2 th1 th2,
+  reach progs s -> nth_error (s_thr s) t1 = Some th1 -> nth_error (s_thr s) t2 = Some th2 ->
+  holder (t_pc th1) = true -> holder (t_pc th2) = true -> t1 = t2.
+Proof. exact writer_unique. Qed.
+Print Assumptions c14_mutual_exclusion.
+
+(* ---- 2. a text is prepared at most once per cache generation ------------------------------ *)
+(* An entry (hence a Prepare call) is published only while no entry able to serve the request
+   (ready or in progress) is in the map ... *)
+Theorem c14_publish_only_when_unserved : forall s t th c s' l,
+  step_th s t th c = Some (s', l) -> length (s_ents s) < length (s_ents s') ->
+  t_pc th = P6 /\ match mlookup (s_map s) (cur_q th) with
+                  | Some e => servable (ent s e) (cur_tx th) = false
+                  | None => True
+                  end.
+Proof. exact publish_only_when_unserved. Qed.
+Print Assumptions c14_publish_only_when_unserved.
+
+(* ... hence, in EVERY reachable state, Prepare calls for a text <= 1 + Reset/Close bodies run
+   + failed preparations + ErrBadConn evictions + upgrades (Tx-only entry replaced), all of
+   that text ... *)
+Theorem c14_single_prepare : forall progs s q,
+  reach progs s ->
+  count_calls q (s_calls s) <=
+  1 + s_cuts s + count_nat q (s_fails s) + count_nat q (s_evicts s) + count_nat q (s_upg s).
+Proof. exact single_prepare_ghost. Qed.
+Print Assumptions c14_single_prepare.
+
+(* ... and at quiescence the bound that the checker evaluates on gorm's observed history
+   ([count_ok], where an upgrade needs one Tx-level and one pool-level preparation). *)
+Theorem c14_single_prepare_observable : forall progs s,
+  reach progs s -> all_done s = true ->
+  count_ok (s_calls s) (s_fails s) (s_evicts s) (s_cuts s) = true.
+Proof. exact single_prepare. Qed.
+Print Assumptions c14_single_prepare_observable.
+
+(* ---- 3. a failed preparation is reported to all waiters and not cached ---------------------- *)
+(* whoever waits on a failed entry is released by the close of the channel and ends with the
+   error (QueryRow: with the panic of the swallowed error, see c14_clean_error_refuted_queryrow) *)
+Theorem c14_failure_reaches_waiter : forall s t th e,
+  t_pc th = P3 e -> e_done (ent s e) = true -> e_err (ent s e) = true ->
+  step_th s t th CNone = Some (set_thr s t (set_pc th (Ret (perr th RErrPrep))), None).
+Proof. exact waiter_gets_error. Qed.
+Print Assumptions c14_failure_reaches_waiter.
+
+(* a closed channel always carries the error or a statement: prepare never returns nil, nil *)
+Theorem c14_closed_channel_has_result : forall progs s e,
+  reach progs s -> e_done (ent s e) = true ->
+  e_err (ent s e) = true \/ exists st, e_stmt (ent s e) = Some st.
+Proof. exact closed_channel_has_result. Qed.
+Print Assumptions c14_closed_channel_has_result.
+
+Theorem c14_no_nil_statement : forall progs s t th,
+  reach progs s -> nth_error (s_thr s) t = Some th -> ~ In RNilStmt (t_res th).
+Proof. exact no_nil_stmt. Qed.
+Print Assumptions c14_no_nil_statement.
+
+(* a failed entry is in the map only while its preparer is on its way to delete it *)
+Theorem c14_failed_not_cached : forall progs s k e,
+  reach progs s -> mlookup (s_map s) k = Some e -> e_err (ent s e) = true ->
+  exists t th, nth_error (s_thr s) t = Some th /\ (t_pc th = P11 e \/ t_pc th = P11b e).
+Proof. exact failed_not_cached. Qed.
+Print Assumptions c14_failed_not_cached.
+
+(* ---- 4. every statement the cache prepared is eventually closed ----------------------------- *)
+(* REFUTED on the code as it is.  W1 (ErrBadConn after a Reset), W2 (failed Prepare after a
+   Reset), W4 (failed Tx-level Prepare after an upgrade, no Reset at all): all goroutines are
+   done, the cache is closed, one pool-level statement was prepared and is never closed.  Each
+   schedule is replayed on the real gorm by corpus/C14 (KNOWN-FINDING stale-delete). *)
 Theorem c14_closed_eventually_refuted_badconn :
   exists s, run (init w1_progs) w1_sched = Some s /\ all_done s = true /\ s_map s = None
             /\ leaked s = [1] /\ s_stolen s = true.
@@ -25,10 +107,45 @@ Theorem c14_closed_eventually_refuted_upgrade :
 Proof. exact closed_eventually_refuted_w4. Qed.
 Print Assumptions c14_closed_eventually_refuted_upgrade.
 
-(* "every operation returns the same rows as in non-prepared mode or a clean error once the
-   cache is closed": REFUTED.  W3: no Close anywhere, no driver fault, and an operation fails
-   with "sql: statement is closed" (KNOWN-FINDING close-races-use).  W5: a QueryRow after Close
-   panics instead of reporting ErrInvalidDB (KNOWN-FINDING row-swallows-error). *)
+(* PARTIAL, with the exact missing hypothesis: as long as no delete(Stmts, query) removed an
+   entry that was not the deleter's own ([s_stolen] = false: "the entry at q is mine"), every
+   successfully prepared pool-level statement is closed, or a spawned goroutine is about to close
+   it, or an entry carries it that is in the current map or has a live closer ... *)
+Theorem c14_closed_eventually_partial : forall progs s st q,
+  reach progs s -> s_stolen s = false -> In (st, q, false) (s_prep s) -> safe s st.
+Proof. exact closed_eventually_partial. Qed.
+Print Assumptions c14_closed_eventually_partial.
+
+(* ... so at quiescence every statement still open is cached, and after a final Close nothing
+   is left open. *)
+Theorem c14_quiescent_open_is_cached : forall progs s st,
+  reach progs s -> s_stolen s = false -> all_done s = true -> In st (leaked s) ->
+  exists k e, mlookup (s_map s) k = Some e /\ e_stmt (ent s e) = Some st.
+Proof. exact quiescent_open_is_cached. Qed.
+Print Assumptions c14_quiescent_open_is_cached.
+
+Theorem c14_leak_free_partial : forall progs s,
+  reach progs s -> s_stolen s = false -> all_done s = true -> s_map s = None -> leaked s = [].
+Proof. exact leak_free_partial. Qed.
+Print Assumptions c14_leak_free_partial.
+
+(* ---- 5. transparency ------------------------------------------------------------------------ *)
+(* the statement a goroutine executes at the driver was prepared for the text it asked for *)
+Theorem c14_right_statement : forall progs s t th st,
+  reach progs s -> nth_error (s_thr s) t = Some th -> executing (t_pc th) = Some st ->
+  exists b, In (st, cur_q th, b) (s_prep s).
+Proof. exact right_statement. Qed.
+Print Assumptions c14_right_statement.
+
+Theorem c14_map_key_is_text : forall progs s k e,
+  reach progs s -> mlookup (s_map s) k = Some e -> e_q (ent s e) = k.
+Proof. exact map_key_text. Qed.
+Print Assumptions c14_map_key_is_text.
+
+(* "same rows or a clean error once the cache is closed": REFUTED.  W3: no Close anywhere, no
+   driver fault, and an operation fails with "sql: statement is closed" (KNOWN-FINDING
+   close-races-use).  W5: a QueryRow after Close panics instead of reporting ErrInvalidDB
+   (KNOWN-FINDING row-swallows-error). *)
 Theorem c14_transparent_refuted_reset :
   exists s, run (init w3_progs) w3_sched = Some s /\ all_done s = true
             /\ no_faults w3_sched /\ ~ has_close w3_progs
@@ -41,3 +158,28 @@ Theorem c14_clean_error_refuted_queryrow :
             /\ results s = [[ROk]; [RPanic]].
 Proof. exact clean_error_refuted_w5. Qed.
 Print Assumptions c14_clean_error_refuted_queryrow.
+
+(* PARTIAL: programs without Reset/Close, driver never failing: whatever the interleaving,
+   every operation that returned, returned ROk. *)
+Theorem c14_transparent_partial : forall progs sched s,
+  (forall p, In p progs -> Forall is_exec p) -> no_faults sched ->
+  run (init progs) sched = Some s ->
+  forall t th, nth_error (s_thr s) t = Some th -> Forall (eq ROk) (t_res th).
+Proof. exact transparent_partial. Qed.
+Print Assumptions c14_transparent_partial.
+
+(* ---- non-vacuity ------------------------------------------------------------------------------ *)
+(* the hypotheses of c14_leak_free_partial are met by a history with a failed Prepare AND an
+   ErrBadConn eviction (each deleting its own entry) *)
+Example c14_leak_free_partial_instance :
+  exists s, run (init w6_progs) w6_sched = Some s /\ all_done s = true /\ s_stolen s = false
+            /\ s_map s = None /\ s_prep s = [(0, 0, false)] /\ s_fails s = [0] /\ s_evicts s = [0].
+Proof. exact w6_instance. Qed.
+
+(* the hypotheses of c14_transparent_partial are met by two goroutines racing for one text:
+   one Prepare call, both operations ROk *)
+Example c14_transparent_partial_instance :
+  (forall p, In p w7_progs -> Forall is_exec p) /\ no_faults w7_sched /\
+  exists s, run (init w7_progs) w7_sched = Some s /\ all_done s = true /\ s_calls s = [(0, false)]
+            /\ results s = [[ROk]; [ROk]].
+Proof. exact w7_instance. Qed.
